@@ -49,6 +49,8 @@ def config(name):
     P = 1
     if base == 'sdc':
         pass
+    elif base == 'lobatto':
+        desc['sweeper_params']['quad_type'] = 'LOBATTO'
     elif base == 'mlsdc':
         desc['sweeper_params']['num_nodes'] = [3, 2]
         desc['space_transfer_class'] = IdentityTransfer
@@ -85,7 +87,7 @@ def config(name):
     return P, cp, desc, dt
 
 
-FIXED = ['sdc', 'mlsdc', 'pfasst', 'mssdc', 'rk', 'hooks', 'sdc/random', 'pfasst/random']
+FIXED = ['sdc', 'lobatto', 'mlsdc', 'pfasst', 'mssdc', 'rk', 'hooks', 'sdc/random', 'pfasst/random']
 ALL = FIXED + ['adaptive']
 
 
@@ -263,7 +265,7 @@ def run(rep, tier):
         'continuation time = end time of the last step as logged by the first part (the float the controller itself accumulated)',
         'adaptive configuration only takes part in run() (the re-run / split clauses of the property are for fixed step sizes)',
     ]
-    names = ALL if tier == 'thorough' else ['sdc', 'pfasst', 'mssdc', 'hooks', 'rk', 'sdc/random', 'adaptive']
+    names = ALL if tier == 'thorough' else ['sdc', 'lobatto', 'pfasst', 'mssdc', 'hooks', 'rk', 'sdc/random', 'adaptive']
     depth = 4 if tier == 'thorough' else 3
     refs = dict(zip(ALL, common.pmap(reference, ALL, nproc=min(8, common.NPROC))))
     # the reference itself must be reproducible: second subprocess for two configurations
